@@ -20,7 +20,15 @@ CLOCK_GLOBS = ["internal/kvstore/table/table.go", "internal/kvstore/compaction.g
 
 
 # background workers that the harness can switch off (gate inserted at the top of the function)
-GATES = {"internal/dmap/eviction.go": ["-skip", "evictKeys"]}
+GATES = {"internal/dmap/eviction.go": ["-skip", "evictKeys"],
+         # yield points (verifhook.At) between the read and the write of read-modify-write sequences
+         "internal/dmap/lock.go": ["-point", "unlockKey", "deleteKeys", "unlock.checked",
+                                   "-point", "unlockKey", "deleteLockKey", "unlock.checked",
+                                   "-point", "leaseKey", "Expire", "lease.checked",
+                                   "-point", "leaseKey", "expireLockKey", "lease.checked"],
+         "internal/dmap/atomic.go": ["-point", "atomicIncrDecr", "put", "atomic.read",
+                                     "-point", "getPut", "put", "atomic.read",
+                                     "-point", "atomicIncrByFloat", "put", "atomic.read"]}
 
 
 def run(cmd, cwd=None, env=None, check=True, timeout=None, quiet=False):
